@@ -23,6 +23,7 @@ ClaimOK(r, m) ==
       [] r.k = "msgkey" -> /\ KS(m)!MessageKey(r.key, r.gen, "application", r.leaf, r.leaves, r.ctx, FALSE)
                            /\ KS(m)!MessageNonce(r.nonceProv, r.gen, "application", r.leaf, r.leaves, r.ctx, FALSE)
                            /\ r.nonceProv.prk.id = r.key.prk.id        \* key and nonce of one generation share the ratchet secret
+      [] r.k = "pskorder" -> KS(m)!PskOrder(r.prov, r.psks)
       [] r.k = "cth" -> KS(m)!ConfirmedHash(r.prov, r.epoch)
       [] r.k = "treehash" -> TRUE
       [] r.k = "call-mac" -> KS(m)!MacKey(r.key)
